@@ -2,37 +2,54 @@
 static int bad; static void fail(const char *what){ printf("MISMATCH %s\n", what); bad++; }
 extern int lfunc_0(void); extern void *addr_lfunc_0(void); extern void *l1_addr_lfunc_0(void); int (*volatile fp_lfunc_0)(void) = lfunc_0;
 extern int ldata_1[]; extern const void *addr_ldata_1(void); extern const void *l1_addr_ldata_1(void); extern int read_ldata_1(void); extern int l1_read_ldata_1(void); int *volatile dp_ldata_1 = ldata_1;
-extern const int ldata_ro_2[]; extern const void *addr_ldata_ro_2(void); extern const void *l1_addr_ldata_ro_2(void); extern int read_ldata_ro_2(void); extern int l1_read_ldata_ro_2(void); const int *volatile dp_ldata_ro_2 = ldata_ro_2;
-extern int lalias_3; extern void *addr_lalias_3(void); extern int read_lalias_3(void); extern void write_lalias_3(int);
-extern int lifunc_4(void); extern void *addr_lifunc_4(void); int (*volatile fp_lifunc_4)(void) = lifunc_4;
-extern int lalias_st_5[]; extern void *addr_lalias_st_5(void); extern void *waddr_lalias_st_5(void); extern int read_lalias_st_5(void); extern void write_lalias_st_5(int);
-extern int lalias_multi_6; extern void *addr_lalias_multi_6(void); extern void *waddr_lalias_multi_6(void); extern int read_lalias_multi_6(void); extern void write_lalias_multi_6(int);
+extern int lalias_2; extern void *addr_lalias_2(void); extern int read_lalias_2(void); extern void write_lalias_2(int);
+extern int lfunc_3(void); extern void *addr_lfunc_3(void); extern void *l1_addr_lfunc_3(void); int (*volatile fp_lfunc_3)(void) = lfunc_3;
+extern int ldata_4[]; extern const void *addr_ldata_4(void); extern const void *l1_addr_ldata_4(void); extern int read_ldata_4(void); extern int l1_read_ldata_4(void); int *volatile dp_ldata_4 = ldata_4;
+static int impl_eifunc_5(void){ return 61; } static void *res_eifunc_5(void){ return (void*)impl_eifunc_5; } int eifunc_5(void) __attribute__((ifunc("res_eifunc_5"))); extern void *l1_addr_eifunc_5(void); extern int l1_call_eifunc_5(void); int (*volatile fp_eifunc_5)(void) = eifunc_5;
+extern int lalias_6; extern void *addr_lalias_6(void); extern int read_lalias_6(void); extern void write_lalias_6(int);
+extern int lifunc_7(void); extern void *addr_lifunc_7(void); int (*volatile fp_lifunc_7)(void) = lifunc_7;
+extern int lalias_st_8[]; extern void *addr_lalias_st_8(void); extern void *waddr_lalias_st_8(void); extern int read_lalias_st_8(void); extern void write_lalias_st_8(int);
+extern int lalias_multi_9; extern void *addr_lalias_multi_9(void); extern void *waddr_lalias_multi_9(void); extern int read_lalias_multi_9(void); extern void write_lalias_multi_9(int);
 int main(void){
     if ((void*)lfunc_0 != addr_lfunc_0()) fail("lfunc_0: exe vs defining library");
     if ((void*)lfunc_0 != l1_addr_lfunc_0()) fail("lfunc_0: exe vs lib1");
     if ((void*)fp_lfunc_0 != (void*)lfunc_0) fail("lfunc_0: data pointer vs code reference in exe");
-    if (fp_lfunc_0() != 119 || lfunc_0() != 119) fail("lfunc_0: call result");
+    if (fp_lfunc_0() != 60 || lfunc_0() != 60) fail("lfunc_0: call result");
     if ((const void*)ldata_1 != addr_ldata_1()) fail("ldata_1: exe vs defining library");
     if ((const void*)ldata_1 != l1_addr_ldata_1()) fail("ldata_1: exe vs lib1");
     if ((const void*)dp_ldata_1 != (const void*)ldata_1) fail("ldata_1: data pointer vs code reference in exe");
-    if (ldata_1[0] != 172 || read_ldata_1() != 172) fail("ldata_1: initial value");
-    ldata_1[0] = 1172; if (read_ldata_1() != 1172 || l1_read_ldata_1() != 1172) fail("ldata_1: write through exe not seen by library");
-    if ((const void*)ldata_ro_2 != addr_ldata_ro_2()) fail("ldata_ro_2: exe vs defining library");
-    if ((const void*)ldata_ro_2 != l1_addr_ldata_ro_2()) fail("ldata_ro_2: exe vs lib1");
-    if ((const void*)dp_ldata_ro_2 != (const void*)ldata_ro_2) fail("ldata_ro_2: data pointer vs code reference in exe");
-    if (ldata_ro_2[0] != 145 || read_ldata_ro_2() != 145) fail("ldata_ro_2: initial value");
-    if ((void*)&lalias_3 != addr_lalias_3()) fail("lalias_3: weak alias in exe vs strong symbol in library");
-    write_lalias_3(61); if (lalias_3 != 61) fail("lalias_3: write through strong symbol not seen through alias");
-    lalias_3 = 63; if (read_lalias_3() != 63) fail("lalias_3: write through alias not seen through strong symbol");
-    if ((void*)lifunc_4 != addr_lifunc_4()) fail("lifunc_4: library ifunc address exe vs library");
-    if ((void*)fp_lifunc_4 != (void*)lifunc_4) fail("lifunc_4: library ifunc address data vs code in exe");
-    if (lifunc_4() != 154 || fp_lifunc_4() != 154) fail("lifunc_4: ifunc call result");
-    if ((void*)lalias_st_5 != addr_lalias_st_5() || (void*)lalias_st_5 != waddr_lalias_st_5()) fail("lalias_st_5: symbol in exe vs its alias used by the library");
-    if (lalias_st_5[0] != 0 || read_lalias_st_5() != 0) fail("lalias_st_5: initial value");
-    lalias_st_5[0] = 1186; if (read_lalias_st_5() != 1186) fail("lalias_st_5: write in exe not seen by the library through the alias");
-    write_lalias_st_5(193); if (lalias_st_5[0] != 193) fail("lalias_st_5: write by the library through the alias not seen in exe");
-    if ((void*)&lalias_multi_6 != addr_lalias_multi_6() || (void*)&lalias_multi_6 != waddr_lalias_multi_6()) fail("lalias_multi_6: symbol in exe vs its alias used by the library");
-    if (lalias_multi_6 != 101 || read_lalias_multi_6() != 101) fail("lalias_multi_6: initial value");
-    lalias_multi_6 = 1101; if (read_lalias_multi_6() != 1101) fail("lalias_multi_6: write in exe not seen by the library through the alias");
-    write_lalias_multi_6(108); if (lalias_multi_6 != 108) fail("lalias_multi_6: write by the library through the alias not seen in exe");
+    if (ldata_1[0] != 127 || read_ldata_1() != 127) fail("ldata_1: initial value");
+    ldata_1[0] = 1127; if (read_ldata_1() != 1127 || l1_read_ldata_1() != 1127) fail("ldata_1: write through exe not seen by library");
+    if ((void*)&lalias_2 != addr_lalias_2()) fail("lalias_2: weak alias in exe vs strong symbol in library");
+    write_lalias_2(204); if (lalias_2 != 204) fail("lalias_2: write through strong symbol not seen through alias");
+    lalias_2 = 206; if (read_lalias_2() != 206) fail("lalias_2: write through alias not seen through strong symbol");
+    if ((void*)lfunc_3 != addr_lfunc_3()) fail("lfunc_3: exe vs defining library");
+    if ((void*)lfunc_3 != l1_addr_lfunc_3()) fail("lfunc_3: exe vs lib1");
+    if ((void*)fp_lfunc_3 != (void*)lfunc_3) fail("lfunc_3: data pointer vs code reference in exe");
+    if (fp_lfunc_3() != 179 || lfunc_3() != 179) fail("lfunc_3: call result");
+    if ((const void*)ldata_4 != addr_ldata_4()) fail("ldata_4: exe vs defining library");
+    if ((const void*)ldata_4 != l1_addr_ldata_4()) fail("ldata_4: exe vs lib1");
+    if ((const void*)dp_ldata_4 != (const void*)ldata_4) fail("ldata_4: data pointer vs code reference in exe");
+    if (ldata_4[0] != 178 || read_ldata_4() != 178) fail("ldata_4: initial value");
+    ldata_4[0] = 1178; if (read_ldata_4() != 1178 || l1_read_ldata_4() != 1178) fail("ldata_4: write through exe not seen by library");
+    if ((void*)fp_eifunc_5 != (void*)eifunc_5) fail("eifunc_5: ifunc address in data vs code in exe");
+    
+#ifdef EIFUNC_FROM_LIB
+    if ((void*)eifunc_5 != l1_addr_eifunc_5()) fail("eifunc_5: exe ifunc address seen from lib1"); if (l1_call_eifunc_5() != 61) fail("eifunc_5: ifunc call from lib1");
+#endif
+    if (eifunc_5() != 61 || fp_eifunc_5() != 61) fail("eifunc_5: ifunc call result");
+    if ((void*)&lalias_6 != addr_lalias_6()) fail("lalias_6: weak alias in exe vs strong symbol in library");
+    write_lalias_6(188); if (lalias_6 != 188) fail("lalias_6: write through strong symbol not seen through alias");
+    lalias_6 = 190; if (read_lalias_6() != 190) fail("lalias_6: write through alias not seen through strong symbol");
+    if ((void*)lifunc_7 != addr_lifunc_7()) fail("lifunc_7: library ifunc address exe vs library");
+    if ((void*)fp_lifunc_7 != (void*)lifunc_7) fail("lifunc_7: library ifunc address data vs code in exe");
+    if (lifunc_7() != 138 || fp_lifunc_7() != 138) fail("lifunc_7: ifunc call result");
+    if ((void*)lalias_st_8 != addr_lalias_st_8() || (void*)lalias_st_8 != waddr_lalias_st_8()) fail("lalias_st_8: symbol in exe vs its alias used by the library");
+    if (lalias_st_8[0] != 0 || read_lalias_st_8() != 0) fail("lalias_st_8: initial value");
+    lalias_st_8[0] = 1079; if (read_lalias_st_8() != 1079) fail("lalias_st_8: write in exe not seen by the library through the alias");
+    write_lalias_st_8(86); if (lalias_st_8[0] != 86) fail("lalias_st_8: write by the library through the alias not seen in exe");
+    if ((void*)&lalias_multi_9 != addr_lalias_multi_9() || (void*)&lalias_multi_9 != waddr_lalias_multi_9()) fail("lalias_multi_9: symbol in exe vs its alias used by the library");
+    if (lalias_multi_9 != 188 || read_lalias_multi_9() != 188) fail("lalias_multi_9: initial value");
+    lalias_multi_9 = 1188; if (read_lalias_multi_9() != 1188) fail("lalias_multi_9: write in exe not seen by the library through the alias");
+    write_lalias_multi_9(195); if (lalias_multi_9 != 195) fail("lalias_multi_9: write by the library through the alias not seen in exe");
     if (!bad) printf("OK\n"); return bad ? 1 : 0; }
